@@ -4,6 +4,7 @@ import (
 	"fmt"
 	"go/types"
 	"strings"
+	"unicode"
 
 	"golang.org/x/tools/go/ssa"
 )
@@ -13,6 +14,13 @@ func wtxFn(c *Ctx, rule, name string) *ssa.Function {
 	fn := c.P.Func("wtxmgr", "Store", name)
 	if fn == nil {
 		fn = c.P.Func("wtxmgr", "", name)
+	}
+	if fn == nil && name != "" && unicode.IsLower(rune(name[0])) {
+		// an unexported worker folded into the exported wrapper that was its only caller (rollback -> Rollback)
+		up := strings.ToUpper(name[:1]) + name[1:]
+		if fn = c.P.Func("wtxmgr", "Store", up); fn == nil {
+			fn = c.P.Func("wtxmgr", "", up)
+		}
 	}
 	if fn == nil {
 		c.Unresolved(rule, "wtxmgr."+name)
